@@ -35,7 +35,28 @@ Theorem C03_memory_matches_written_status : forall rank s a o k v ok,
   converge rank a s o k = CR v ok -> same_ips (ips_of (cv_mem v) s) (cv_status v).
 Proof. intros rank s a o k v ok. exact (converge_synced rank s a o k v ok). Qed.
 
-(* "no further status write once converged" (idempotence of the handler) is not
-   proved in general: it is checked on the implementation at every quiescent
-   point of every generated history (oracle converged-service-rewritten), and
-   F6 (fixed) / F22 (finding) are the two ways it failed. *)
+(* a converged Service is a fixpoint of the handler: recorded addresses admissible,
+   no PreferDualStack gain possible, status in the normalised (textual) order,
+   annotation naming the owning pool ==> SetBalancer attempts no status write *)
+Theorem C03_converged_no_write : forall rank c s o k oc a',
+  c_have_pools c = true ->
+  o_lb o = true -> by_name (s_pools (c_mem c)) <> [] -> o_cluster_ok o = true ->
+  (is_require (r_pol (o_req o)) && negb (is_dual (r_fam (o_req o))))%bool = false ->
+  o_status o <> [] ->
+  family_changed (alloc_fam (o_status o)) (r_fam (o_req o)) (r_pol (o_req o)) = false ->
+  assign (c_mem c) s (o_req o) (o_status o) = (a', ROk (o_status o)) ->
+  (forall p, o_want_pool o = Some p -> pool_of a' s = Some p) ->
+  (o_want o = WNone \/ exists d, o_want o = WIps d /\ equal_ips rank (o_status o) d = true) ->
+  additional_applies (o_req o) (o_status o) = false ->
+  sort2 rank (o_status o) = o_status o ->
+  o_annot o = pool_of a' s ->
+  set_balancer rank c s (Some o) k = Some oc ->
+  oc_write oc = None /\ c_mem (oc_state oc) = a'.
+Proof. exact converged_no_write. Qed.
+
+(* Not proved: the same for a PreferDualStack Service that holds ONE address on
+   dual-stack cluster IPs (whether the other family can be gained depends on the
+   allocator state; the first handler run that fails to gain it leaves a state
+   in which it fails again - checked on the implementation at every quiescent
+   point: oracle converged-service-rewritten).  F6 (fixed) and F22 (finding) are
+   the two ways that clause failed. *)
